@@ -263,7 +263,7 @@ def crdOfTok (tok : String) : Option Nat :=
 /-- pointer token "&crd3.tail" ↦ helper 2 -/
 def crdOfPtr (tok : String) : Option Nat :=
   if tok.startsWith "&crd" && tok.endsWith ".tail" then
-    crdOfTok ((tok.drop 1).toString.dropRight 5).toString
+    crdOfTok ((tok.drop 1).toString.dropEnd 5).toString
   else none
 
 /-- location of the `next` field the pointer token designates: "&crd1.head" ↦ "crd1.head", "&cb7" ↦ "cb7" -/
@@ -383,11 +383,12 @@ def dataInit (t : Nat) (rtFlag : Bool) (ptrLoc : Option String) (after : M Unit)
   match ptrLoc with
   | some l => if e.arg 0 != l then P.fail s!"expected the new helper to be published in {l}" else setMem l s!"&{nm}.tail"
   | none => if !(e.arg 0).startsWith "stack" then P.fail s!"expected the new helper pointer in a local, got {e.arg 0}"
+  -- the store above is the publication point (the default pointer is read without the mutex)
+  after
   let e ← nextEv t "SPAWN"
   if e.op != "SPAWN" || e.arg 1 != "lib" then P.fail "expected SPAWN of the helper thread"
   let nt ← num ((e.arg 0).drop 1).toString
   modify fun g => { g with tidH := (nt, h) :: g.tidH }
-  after
   cover (if rtFlag then "helper_created_rt" else "helper_created")
   pure h
 
@@ -449,8 +450,6 @@ def getCpu (t cpu : Nat) : M String := do
 -- ------------------------------------------------------------------------------------------
 
 def callRcu (t id : Nat) : M Unit := do
-  let g0 ← P.get
-  let mbFlavor := g0.slaveMB && false
   readLock t
   let g ← P.get
   labB (.crCall (mt g t) id)
@@ -482,8 +481,6 @@ def callRcu (t id : Nat) : M Unit := do
   callRcuInner t h s!"cb{id}"
   let g ← P.get
   labB (.crRet (mt g t))
-  let _ := mbFlavor
-  pure ()
 
 -- ------------------------------------------------------------------------------------------
 -- operations under call_rcu_mutex
@@ -782,8 +779,6 @@ def barrierComplete (t h : Nat) (wn : String) : M Unit := do
 -- ------------------------------------------------------------------------------------------
 -- user operations (dispatch on the CALL markers of the scenario)
 -- ------------------------------------------------------------------------------------------
-
-def mbFlavorOf (g : G) : Bool := g.slaveMB && g.legacyMb && false
 
 structure Flav where
   mb : Bool
@@ -1133,8 +1128,6 @@ end CrDrv
 
 open CrDrv in
 def main : IO UInt32 := do
-  let f (r : Run (G × Bool)) (ws : List String) : Except String (Run (G × Bool)) := .ok r
-  let _ := f
   let step (st : Run G × Bool) (ws : List String) : Except String (Run G × Bool) :=
     match ws with
     | "CFG" :: rest => .ok ({ st.1 with g := cfgLine st.1.g rest }, isMb rest)
